@@ -97,10 +97,18 @@ theorem callLocal_mapOut {α β} (run : List Ev → CallOut α) (f : α → Exce
   obtain ⟨cons, he, hc, hrun⟩ := h ho
   exact ⟨cons, he, hc, fun u2 => by rw [hrun u2, mapOut_with_unread]; simp⟩
 
+theorem callLocal_swallowClose (run : List Ev → CallOut Res) (evs : List Ev)
+    (h : CallLocal run evs) : CallLocal (fun e => swallowClose (run e)) evs := by
+  unfold CallLocal at h ⊢
+  simp only [swallowClose_sockOpen, swallowClose_unread]
+  intro ho
+  obtain ⟨cons, he, hc, hrun⟩ := h ho
+  exact ⟨cons, he, hc, fun u2 => by rw [hrun u2, swallowClose_with_unread]; rfl⟩
+
 theorem call_local (cfg : Cfg) (ie so : Bool) (c : Call) (sc : Script) (evs : List Ev) :
     CallLocal (fun e => call cfg ie so c { sc with evs := e }) evs := by
   rcases shape cfg c with ⟨res, hcall⟩ | ⟨verb, cmds, nr, f, hcall, -, -, -⟩ |
-    ⟨cmds, nr, tok, f, hcall, -, -, -, -⟩ | ⟨kind, cmd, wanted, g, hcall, -⟩ | hq
+    ⟨cmds, nr, tok, f, hcall, -, -, -, -⟩ | ⟨kind, cmd, wanted, g, hcall, -⟩ | hq | ⟨gr, hsd⟩
   · simp only [hcall]
     intro _; exact ⟨[], rfl, trivial, fun u2 => rfl⟩
   · simp only [hcall]
@@ -111,4 +119,7 @@ theorem call_local (cfg : Cfg) (ie so : Bool) (c : Call) (sc : Script) (evs : Li
     exact callLocal_mapOut _ _ _ (exchangeFetch_local kind cmd wanted ie so sc evs)
   · subst hq
     intro h; simp [call] at h
+  · subst hsd
+    simp only [call_shutdown]
+    exact callLocal_swallowClose _ _ (callLocal_mapOut _ _ _ (exchangeMisc_local [shutdownCmd gr] false none so sc evs))
 end Client
